@@ -162,100 +162,117 @@ func (handler *HeadersHandler) Handle(ctx context.Context, m wire.Message) ([]wi
 			continue
 		}
 
-		// Check for a reorg in processed blocks
+		// Check for a reorg in processed blocks. Block processing is locked out while the chain is
+		// reverted, or a block could be added to, announced and indexed against a chain that is
+		// reverted underneath it.
+		handler.state.LockProcessing()
 		reorgHeight, exists := handler.blocks.Height(&header.PrevBlock)
-		if exists {
-			if reorgHeight == handler.blocks.LastHeight() {
-				logger.Info(ctx, "Reorg on latest block")
+		if !exists {
+			handler.state.UnlockProcessing()
+		} else {
+			reorged, err := func() (bool, error) {
+				defer handler.state.UnlockProcessing()
+
+				if reorgHeight == handler.blocks.LastHeight() {
+					logger.Info(ctx, "Reorg on latest block")
+					handler.state.ClearInSync()
+					handler.state.ClearBlockRequests(ctx)
+					return false, nil
+				}
+
+				logger.Info(ctx, "Reorging to height %d", reorgHeight)
 				handler.state.ClearInSync()
 				handler.state.ClearBlockRequests(ctx)
-				continue
-			}
 
-			logger.Info(ctx, "Reorging to height %d", reorgHeight)
-			handler.state.ClearInSync()
-			handler.state.ClearBlockRequests(ctx)
-
-			// Call reorg listener for all blocks above reorg height.
-			reorg := storage.Reorg{
-				BlockHeight: reorgHeight,
-			}
-
-			for height := handler.blocks.LastHeight(); height > reorgHeight; height-- {
-				// Add block to reorg
-				revertHeader, err := handler.blocks.Header(ctx, height)
-				if err != nil {
-					return response, errors.Wrap(err, "Failed to get reverted block header")
+				// Call reorg listener for all blocks above reorg height.
+				reorg := storage.Reorg{
+					BlockHeight: reorgHeight,
 				}
 
-				reorgBlock := storage.ReorgBlock{
-					Header: *revertHeader,
+				for height := handler.blocks.LastHeight(); height > reorgHeight; height-- {
+					// Add block to reorg
+					revertHeader, err := handler.blocks.Header(ctx, height)
+					if err != nil {
+						return false, errors.Wrap(err, "Failed to get reverted block header")
+					}
+
+					reorgBlock := storage.ReorgBlock{
+						Header: *revertHeader,
+					}
+
+					revertTxs, err := handler.txs.GetBlock(ctx, height)
+					if err != nil {
+						return false, errors.Wrap(err, "Failed to get reverted txs")
+					}
+					for _, txid := range revertTxs {
+						reorgBlock.TxIds = append(reorgBlock.TxIds, txid)
+					}
+
+					reorg.Blocks = append(reorg.Blocks, reorgBlock)
+
+					if len(revertTxs) > 0 {
+						if err := handler.txs.RemoveBlock(ctx, height); err != nil {
+							return false, errors.Wrap(err, "Failed to remove reverted txs")
+						}
+					} else {
+						if err := handler.txs.ReleaseBlock(ctx, height); err != nil {
+							return false, errors.Wrap(err, "Failed to remove reverted txs")
+						}
+					}
 				}
 
-				revertTxs, err := handler.txs.GetBlock(ctx, height)
-				if err != nil {
-					return response, errors.Wrap(err, "Failed to get reverted txs")
-				}
-				for _, txid := range revertTxs {
-					reorgBlock.TxIds = append(reorgBlock.TxIds, txid)
-				}
+				if len(reorg.Blocks) > 0 {
+					logger.Info(ctx, "Removed %d blocks", len(reorg.Blocks))
+					if err := handler.reorgs.Save(ctx, &reorg); err != nil {
+						return false, errors.Wrap(err, "save reorg")
+					}
 
-				reorg.Blocks = append(reorg.Blocks, reorgBlock)
-
-				if len(revertTxs) > 0 {
-					if err := handler.txs.RemoveBlock(ctx, height); err != nil {
-						return response, errors.Wrap(err, "Failed to remove reverted txs")
+					// Revert block repository
+					if err := handler.blocks.Revert(ctx, reorgHeight); err != nil {
+						return false, errors.Wrap(err, "revert blocks")
 					}
 				} else {
-					if err := handler.txs.ReleaseBlock(ctx, height); err != nil {
-						return response, errors.Wrap(err, "Failed to remove reverted txs")
-					}
-				}
-			}
-
-			if len(reorg.Blocks) > 0 {
-				logger.Info(ctx, "Removed %d blocks", len(reorg.Blocks))
-				if err := handler.reorgs.Save(ctx, &reorg); err != nil {
-					return response, errors.Wrap(err, "save reorg")
+					logger.Info(ctx, "No blocks removed")
 				}
 
-				// Revert block repository
-				if err := handler.blocks.Revert(ctx, reorgHeight); err != nil {
-					return response, errors.Wrap(err, "revert blocks")
+				// Assert this header is now next
+				newLastHash := handler.blocks.LastHash()
+				if newLastHash == nil || !newLastHash.Equal(&header.PrevBlock) {
+					return false, fmt.Errorf("Revert failed to produce correct last hash : %s",
+						newLastHash)
 				}
-			} else {
-				logger.Info(ctx, "No blocks removed")
-			}
+				handler.state.SetLastHash(*newLastHash)
 
-			// Assert this header is now next
-			newLastHash := handler.blocks.LastHash()
-			if newLastHash == nil || !newLastHash.Equal(&header.PrevBlock) {
-				return response, fmt.Errorf("Revert failed to produce correct last hash : %s",
-					newLastHash)
-			}
-			handler.state.SetLastHash(*newLastHash)
-
-			// Add this header after the new top block
-			request, err := handler.checkStartHeight(ctx, header)
-			if err != nil {
-				return response, errors.Wrap(err, "check start height")
-			}
-			if request {
-				// Request it if it isn't already requested.
-				sendRequest, err := handler.state.AddBlockRequest(&header.PrevBlock, hash)
+				// Add this header after the new top block
+				request, err := handler.checkStartHeight(ctx, header)
 				if err != nil {
-					if errors.Cause(err) == state.ErrWrongPreviousHash {
-						logger.Warn(ctx, "Wrong previous hash : %s", header.PrevBlock)
-					}
-				} else if sendRequest {
-					// logger.Debug(ctx, "Requesting block : %s", hash)
-					getBlocks.AddInvVect(wire.NewInvVect(wire.InvTypeBlock, hash))
-					if len(getBlocks.InvList) == wire.MaxInvPerMsg {
-						// Start new get data (blocks) message
-						response = append(response, getBlocks)
-						getBlocks = wire.NewMsgGetData()
+					return false, errors.Wrap(err, "check start height")
+				}
+				if request {
+					// Request it if it isn't already requested.
+					sendRequest, err := handler.state.AddBlockRequest(&header.PrevBlock, hash)
+					if err != nil {
+						if errors.Cause(err) == state.ErrWrongPreviousHash {
+							logger.Warn(ctx, "Wrong previous hash : %s", header.PrevBlock)
+						}
+					} else if sendRequest {
+						// logger.Debug(ctx, "Requesting block : %s", hash)
+						getBlocks.AddInvVect(wire.NewInvVect(wire.InvTypeBlock, hash))
+						if len(getBlocks.InvList) == wire.MaxInvPerMsg {
+							// Start new get data (blocks) message
+							response = append(response, getBlocks)
+							getBlocks = wire.NewMsgGetData()
+						}
 					}
 				}
+
+				return true, nil
+			}()
+			if err != nil {
+				return response, err
+			}
+			if !reorged {
+				continue
 			}
 
 			lastHash = *hash
